@@ -53,12 +53,13 @@ func (k Keeper) SendNftTransfer(
 
 	fullClassPath := class
 
-	// a native class must not live in the namespace of voucher paths ("nft/<chain>/<chain>/<class>"):
-	// the receiving chain cannot tell such a name from a genuine path, so it could be made to collide
-	// with (and later be exchanged for) the escrowed voucher of somebody else's NFT
-	// (the test is exactly the one the receiving side uses to recognise a path)
-	if !strings.HasPrefix(class, CLASSPREFIX) && strings.HasPrefix(class, CLASSPATHPREFIX) && strings.Contains(class, DELIMITER) {
-		return errorsmod.Wrapf(types.ErrInvalidDenom, "class %s: names starting with %s and containing %s are reserved for voucher paths", class, CLASSPATHPREFIX, DELIMITER)
+	// a native class name must not contain the path delimiter: voucher paths are
+	// "nft/<chain>/<chain>/.../<class>" and every hop reads them by position, so a name with further
+	// segments cannot be told from (the tail of) a genuine path one or more hops away from its origin,
+	// where it could be exchanged for the escrowed voucher of somebody else's NFT; it could not be
+	// restored by a round trip either
+	if !strings.HasPrefix(class, CLASSPREFIX) && strings.Contains(class, DELIMITER) {
+		return errorsmod.Wrapf(types.ErrInvalidDenom, "class %s: names containing %s are reserved for voucher paths", class, DELIMITER)
 	}
 
 	// deconstruct the nft class into the class trace info to determine if the sender is the source chain
